@@ -113,6 +113,50 @@ class Frame:
         return False, None
 
 
+_RT_MODULES = {}
+
+
+def _plain(v, depth=0):
+    if depth > 6:
+        return False
+    if v is None or isinstance(v, (bool, int, float, str, bytes)):
+        return True
+    if isinstance(v, (tuple, list, set, frozenset)):
+        return all(_plain(x, depth + 1) for x in v)
+    if isinstance(v, dict):
+        return all(_plain(k, depth + 1) and _plain(x, depth + 1) for k, x in v.items())
+    return False
+
+
+def _same_plain(a, b):
+    try:
+        return _plain(a) and a == b and type(a) is type(b)
+    except Exception:  # noqa: BLE001
+        return False
+
+
+def _runtime_global(rel, name):
+    """(True, deep copy of the value) of a module-level name in the imported repository module when
+    that value is plain data (numbers, strings, tuples / lists / sets / dicts of such)"""
+    import copy
+    import importlib
+    dotted = rel[:-3].replace("/", ".")
+    if dotted.endswith(".__init__"):
+        dotted = dotted[:-9]
+    if dotted not in _RT_MODULES:
+        try:
+            _RT_MODULES[dotted] = importlib.import_module(dotted)
+        except BaseException:  # noqa: BLE001 - not importable here: the static value stands
+            _RT_MODULES[dotted] = None
+    m = _RT_MODULES[dotted]
+    if m is None or not hasattr(m, name):
+        return False, None
+    v = getattr(m, name)
+    if not _plain(v):
+        return False, None
+    return True, copy.deepcopy(v)
+
+
 class LazyGen:
     """``(elt for x in seq)`` over a symbolic-length sequence (iteration protocol len/get)"""
 
@@ -1028,7 +1072,23 @@ class Interp:
             self.modcache[key] = v
             return v
         if name in mod.assigns:
-            v = self.eval_in_module(mod, mod.assigns[name])
+            try:
+                v = self.eval_in_module(mod, mod.assigns[name])
+                static_failed = None
+            except Undecided as u:
+                v, static_failed = None, u
+            if static_failed is not None or isinstance(v, (set, frozenset, dict, list)):
+                # a module-level container may be filled / mutated by later module-level statements
+                # (registration calls, updates): the value the running code sees is the one of the
+                # imported module.  Taken from there when it is plain data; otherwise the defining
+                # expression stands (and a failed static evaluation stays undecided).
+                ok, rv = _runtime_global(mod.rel, name)
+                if ok:
+                    if static_failed is None and not _same_plain(v, rv):
+                        self.ex.dropped.add(f"global {mod.rel}:{name} read from the imported module (mutated after its definition)")
+                    v = rv
+                elif static_failed is not None:
+                    raise static_failed
             self.modcache[key] = v
             return v
         if name in mod.imports:
